@@ -207,13 +207,14 @@ PROPS["C01"]["claimed"] = False
 
 
 PROPS["C18"] = {
-    "level_text": "Bounded model checking of the real MetaFilterAdapter, PlayerAllow/BlockFilterAdapter, the Vec<T> filter chain, AnyStrategyAdapter and PlayerFillStrategyAdapter against reference evaluators: every pair of rules of the six kinds over two targets with arbitrary (present/absent) metadata; allow/block by name list and id list in every combination; chain = composition; fullest-below-capacity selection with missing/non-numeric counts.",
+    "level_text": "Bounded model checking of the real MetaFilterAdapter, PlayerAllow/BlockFilterAdapter, AnyStrategyAdapter and PlayerFillStrategyAdapter against reference evaluators: every rule of the six kinds over a target with arbitrary (present/absent, matching/non-matching key and value) metadata; allow/block by name list and id list in every combination for every UUID; (thorough tier) first-eligible and fullest-below-capacity selection over two targets with missing/non-numeric counts. Rule conjunction over several rules/targets and the Vec<T> chain are encoded but run out of memory and are NOT part of the claim.",
     "level_note": "Trusted: Kani/CBMC; erasure R1 (adapter futures are plain calls), R4 (Target.meta is an inline association list). Outside: regex-based options (name patterns, host-name scope of OptionFilterAdapter) - the regex crate is not executable under CBMC, those fields are None; configuration -> adapter construction in the binary crate; strings longer than one byte; more than two targets / rules.",
     "assumptions": ["one-byte keys/values from a two-letter alphabet", "<= 2 targets, <= 2 rules, <= 1 metadata entry per target"],
     "explanation": "",
     "harnesses": [
         H("verif_c18::proofs::meta_single_rule", pkg="passage-adapters", desc="one metadata rule (6 kinds) = reference predicate", bounds="1 target, 1 rule", timeout_s=1800, mem_gb=20),
         # meta_rules_and_semantics (2 rules x 2 targets) and chain_is_composition run out of memory (16 GB): not registered
+        # chain_is_composition_one_target (2 single-rule filters x 1 target): > 11 min / 18 GB without finishing - not registered
         H("verif_c18::proofs::block_lists", pkg="passage-adapters", desc="blocked iff name list or id list matches", bounds="all list presence combinations, all UUIDs", timeout_s=1800, mem_gb=16),
         H("verif_c18::proofs::allow_lists", pkg="passage-adapters", desc="allowed iff some list matches", bounds="all list presence combinations", timeout_s=1800, mem_gb=16),
         H("verif_c18::proofs::strategies", pkg="passage-adapters", tier="thorough", desc="any = first; player fill = fullest strictly below max", bounds="2 targets, counts 0..9 / missing / non-numeric, max 0..10", timeout_s=3600, mem_gb=40),
